@@ -35,6 +35,22 @@ def read (b : Bytes) : Except Err (List Nat × List Nat) :=
 def linkName (meshDir : String) (label : Nat) (noColon : Bool) : String :=
   meshDir ++ "/" ++ toString label ++ (if noColon then "" else ":0")
 
+/-- the mesh directory seen by `make_mesh_fragment_links`: file name -> fragment list of the JSON document in it
+    (most recent first) -/
+abbrev LinkStore := List (String × List String)
+
+def linkGet (s : LinkStore) (name : String) : Option (List String) := (s.find? (fun e => e.1 == name)).map (·.2)
+
+/-- `make_mesh_fragment_links` over the rows of the CSV, in order: one `store_file` per row, which creates the file
+    EXCLUSIVELY (`overwrite=False`, mode `xb`), so a row whose file already exists aborts the run with a
+    data-access error and leaves the files of the earlier rows in place. Returns the directory and whether the
+    run completed. -/
+def links (dir : String) (noColon : Bool) : List (Nat × List String) → LinkStore → LinkStore × Bool
+  | [], s => (s, true)
+  | (l, fr) :: rest, s =>
+    if (linkGet s (linkName dir l noColon)).isSome then (s, false)
+    else links dir noColon rest ((linkName dir l noColon, fr) :: s)
+
 /-! ### `mesh.affine_transform_mesh`, polymorphic in the scalar type
     (the driver runs it over `Int`; the theorems hold over every ordered commutative ring) -/
 
